@@ -229,11 +229,30 @@ def check_slots(ctx):
     # Field._compile_impl and _describe_yourself
     fld = repo.cls('Field')
     ci_ = fld.methods.get('_compile_impl')
-    src = unparse(ci_.node)
-    if 'slots = [self.field_name]' in src and 'slots.append(self.descriptor_name)' in src:
+    verdicts = []
+    for p in repo.walker().paths(ci_.node, cls=fld):
+        if p.raises():
+            continue
+        r = p.ret()
+        gt_ = gtexts(p)
+        if r is None or not isinstance(r, (ast.List, ast.Tuple)):
+            verdicts.append(None)
+            continue
+        names = [canon(x) for x in r.elts]
+        described = 'self.descriptor' in gt_
+        if 'self.field_name' not in names:
+            verdicts.append(('no-own-slot', names))
+        elif described and 'self.descriptor_name' not in names:
+            verdicts.append(('no-descriptor-slot', names))
+        else:
+            verdicts.append(True)
+    if verdicts and all(v is True for v in verdicts):
         ctx.holds(rule, ci_, 'slots = [field_name] (+ descriptor_name when described)', 'hidden slot declared', ci_.node.lineno, clause='b')
+    elif any(isinstance(v, tuple) for v in verdicts):
+        v = [x for x in verdicts if isinstance(x, tuple)][0]
+        ctx.violation(rule, ci_, 'Field._compile_impl returns %s' % v[1], 'the field\'s own slot is not declared' if v[0] == 'no-own-slot' else 'the public name of a described field is not declared: the descriptor cannot be published under it', ci_.node.lineno, clause='b', witness=True)
     else:
-        ctx.violation(rule, ci_, 'Field._compile_impl', 'the field\'s own slot is not declared', ci_.node.lineno, clause='b')
+        ctx.undecided(rule, ci_, 'Field._compile_impl', 'cannot see which slots it returns', ci_.node.lineno, clause='b')
     dy = fld.methods.get('_describe_yourself')
     # on the path of a described field: the public name is kept as descriptor_name, the field
     # moves to the hidden name "_described_<name>", the descriptor is told both names
@@ -280,29 +299,48 @@ def check_slots(ctx):
                     else:
                         crossed.append('%s.append(%s)' % (recv, canon(arg)))
     src = unparse(fi.node)
+    # (names spelled in a constant of the module that the function reads count as mentioned)
+    used = {n_.id for n_ in ast.walk(fi.node) if isinstance(n_, ast.Name)}
+    for st_ in repo.modules[fi.module]['tree'].body:
+        if isinstance(st_, ast.Assign) and any(isinstance(t_, ast.Name) and t_.id in used for t_ in st_.targets):
+            src += '\n' + unparse(st_)
     if crossed:
         ctx.violation('R13-hooks', fi, crossed[0], 'a hook is collected into the list of the other phase (or not taken from the field\'s descriptor)', fi.node.lineno, clause='c')
     elif good == set(lists) and loops_over_fields:
         ctx.holds('R13-hooks', fi, 'one before-pack / after-unpack hook collected per described field', 'no described field is forgotten', fi.node.lineno, clause='c')
     elif good == set(lists) and other_lists:
         ctx.violation('R13-hooks', fi, 'for ... in %s' % sorted(other_lists)[0], 'the hooks are collected from another list than self.fields (the final field list, embedded packets included): described fields can be missed', fi.node.lineno, clause='c')
-    elif not all(v in src for v in lists.values()) or not all(k.split('.', 1)[1] in src for k in lists):
-        ctx.violation('R13-hooks', fi, 'collect_sync_methods_from_field_descriptors', 'hooks are not collected into the list of their own phase for every described field', fi.node.lineno, clause='c')
+    elif not all(v in src for v in lists.values()):
+        ctx.violation('R13-hooks', fi, 'collect_sync_methods_from_field_descriptors', 'hooks are not collected into the list of their own phase for every described field (a hook kind is never mentioned)', fi.node.lineno, clause='c')
     else:
         ctx.undecided('R13-hooks', fi, 'collect_sync_methods_from_field_descriptors', 'both hook kinds and both lists are mentioned, but the rule cannot follow how the hooks reach the lists (not the append-per-field form)', fi.node.lineno, clause='c')
     fi = m['add_sync_descriptor_class_methods']
     okg = True
+    OTHER = {'sync_before_pack': 'sync_after_unpack', 'sync_after_unpack': 'sync_before_pack'}
     for n in ast.walk(fi.node):
         if isinstance(n, ast.FunctionDef) and n.name.startswith('get_sync_'):
+            phase = n.name[len('get_'):-len('_methods')] if n.name.endswith('_methods') else n.name[len('get_'):]
             want = 'self.' + n.name[len('get_'):]
             rets = [r for r in ast.walk(n) if isinstance(r, ast.Return)]
-            if not (len(rets) == 1 and rets[0].value is not None and canon(rets[0].value) == want):
-                okg = False
-                ctx.violation('R13-hooks', fi, '%s returns %s' % (n.name, [canon(r.value) for r in rets if r.value is not None]), 'the getter returns the list of the other phase', n.lineno, clause='c')
+            got = [canon(r.value) for r in rets if r.value is not None]
+            if len(rets) == 1 and got == [want]:
+                continue
+            okg = False
+            if any(OTHER.get(phase, '\0') in g and phase not in g for g in got):
+                ctx.violation('R13-hooks', fi, '%s returns %s' % (n.name, got), 'the getter returns the list of the other phase', n.lineno, clause='c', witness=True)
+            else:
+                okg = None
+                ctx.undecided('R13-hooks', fi, '%s returns %s' % (n.name, got), 'cannot see that this is the list the hooks of this phase were collected into', n.lineno, clause='c')
     src = unparse(fi.node)
-    if 'self.cls.get_sync_before_pack_methods = get_sync_before_pack_methods' not in src or 'self.cls.get_sync_after_unpack_methods = get_sync_after_unpack_methods' not in src:
+    installs = [(canon(a.targets[0]), canon(a.value)) for a in ast.walk(fi.node) if isinstance(a, ast.Assign) and len(a.targets) == 1 and canon(a.targets[0]).startswith('self.cls.get_sync_')]
+    crossed_names = [(t, v) for t, v in installs if v.startswith('get_sync_') and t != 'self.cls.' + v]
+    if crossed_names:
         okg = False
-        ctx.violation('R13-hooks', fi, 'add_sync_descriptor_class_methods', 'the getters are installed under the wrong names', fi.node.lineno, clause='c')
+        ctx.violation('R13-hooks', fi, '%s = %s' % crossed_names[0], 'the getters are installed under the wrong names', fi.node.lineno, clause='c', witness=True)
+    elif 'self.cls.get_sync_before_pack_methods = get_sync_before_pack_methods' not in src or 'self.cls.get_sync_after_unpack_methods = get_sync_after_unpack_methods' not in src:
+        if okg:
+            okg = None
+        ctx.undecided('R13-hooks', fi, 'add_sync_descriptor_class_methods', 'cannot see under which names the getters are installed', fi.node.lineno, clause='c')
     if okg:
         ctx.holds('R13-hooks', fi, 'get_sync_before_pack_methods / get_sync_after_unpack_methods return their own lists', 'drivers see the hooks of their phase', fi.node.lineno, clause='c')
 
